@@ -59,6 +59,13 @@ EXTRA = {
         "of load_files, while a workbook is serialised, or thrown by the consumer; an include directive or a sheet that "
         "is consumed without being yielded cannot be the failing block",
         "single consumer thread; no concurrent modification of the files",
+        "the pinned frame table is a canonical abstraction of the source (harness/extract.py item with_frames): callee "
+        "names and the kind of each positional argument (<param> / <local> / nested call) of with-items, opener calls, "
+        "close calls, yields and write/save calls; keyword arguments, literal arguments (file modes), the tests of "
+        "conditional expressions, with-items rooted at a local that are neither an opener nor closing(...), and all "
+        "other statements are NOT in the table; a module-private helper that only returns opener / nullcontext "
+        "expressions is followed one level. What the table drops (e.g. which branch of `open(..) if .. else "
+        "nullcontext(..)` is taken when) is tied to the code by the correspondence run only",
     ],
     "explanation": (
         "Theorems (Props/C19.lean): api_closes_what_it_opened / library_handles_closed (every history that ends the "
